@@ -302,6 +302,20 @@ func (ri *RedisInput) syncMeta(ctx context.Context, redisCli *redis.StandaloneRe
 		ri.logger.Errorf("channel SetRunId error : offset(%v), err(%v)", sOffset, err)
 		return
 	}
+	if isFullSync {
+		// the position the output holds belongs to the history that is being replaced : SetRunId would
+		// carry its offset over to the new run id, and until the snapshot has been replayed a restart
+		// would ask the source to continue the new history from that foreign offset
+		if d, ok := ri.output.(interface {
+			DropStartPoint(ctx context.Context, newRunId string) error
+		}); ok {
+			err = d.DropStartPoint(ctx, sOffset.RunId)
+			if err != nil {
+				ri.logger.Errorf("output DropStartPoint error : offset(%v), err(%v)", sOffset, err)
+				return
+			}
+		}
+	}
 	err = ri.output.SetRunId(ctx, sOffset.RunId)
 	if err != nil {
 		ri.logger.Errorf("output SetRunId error : offset(%v), err(%v)", sOffset, err)
